@@ -135,7 +135,7 @@ fn exec<'a>(kind: &str, it: &'a Item, open: &mut Option<Open<'a>>) -> Res {
 				"write_slpp" => of_bytes(real::write_slpp(g, it.comp)),
 				_ => {
 					// early: inside the first entries; late: inside the frame data, or (every other replay) one byte short
-					let limit = if kind == "write_slpp_fail_early" { 700 } else if b.len() % 2 == 0 { it.arch.len() - 1500 } else { it.arch.len() - 1 };
+					let limit = if kind == "write_slpp_fail_early" { 700 } else if b.len() % 2 == 0 { it.arch.len().saturating_sub(1500) } else { it.arch.len().saturating_sub(1) };
 					match real::fail_write_slpp_outcome(g, it.comp, limit) {
 						Outcome::Err(_) => Res::Err,
 						Outcome::Ok(n) => Res::Other(format!("a write into a sink that fails after {} bytes reported success ({} bytes taken)", limit, n)),
@@ -166,7 +166,7 @@ fn exec<'a>(kind: &str, it: &'a Item, open: &mut Option<Open<'a>>) -> Res {
 		}
 		"read_slpp" => of_game(real::read_slpp(&it.arch, false)),
 		"read_slpp_skip" => of_game(real::read_slpp(&it.arch, true)),
-		"read_slpp_cut" => of_game(real::read_slpp(&it.arch[..it.slpp_cut], false)),
+		"read_slpp_cut" => of_game(real::read_slpp(&it.arch[..it.slpp_cut.min(it.arch.len())], false)),
 		"inc_begin" => {
 			let mut r = Cursor::new(&b[..]);
 			let res = guard(|| -> peppi::io::Result<slippi::de::ParseState> {
@@ -295,17 +295,21 @@ pub fn cmd_session(a: &Args) {
 			let built = gen::build_beh(&db, &beh, &GenOpts::new(seed ^ (0x5E55 + i as u64), *ver));
 			on_new_thread(|| {
 				let comp = Comp::all()[i % 3];
-				let g = real::read_slp(&built.bytes, false, true).ok().expect("pool replay");
-				let arch = real::write_slpp(g, comp).ok().expect("pool archive");
+				// (a pool replay the code under test rejects is reported below: the fresh results are errors then)
+				let arch = match real::read_slp(&built.bytes, false, true) {
+					Outcome::Ok(g) => real::write_slpp(g, comp).ok().unwrap_or_default(),
+					_ => vec![],
+				};
 				// an undeclared command byte in place of the last event before Game End, or of Game End itself
 				let mut bad = built.bytes.clone();
 				let k = built.ev_offs.len().saturating_sub(2);
 				bad[built.ev_offs[k]] = 0x01;
 				// cut points: inside the last third of the events; inside the Arrow data
 				let slp_cut = built.ev_offs[built.ev_offs.len() * 2 / 3] + 1;
-				let es = crate::tarx::walk(&arch).expect("tar");
-				let fa = es.iter().find(|e| e.name == "frames.arrow").expect("frames.arrow");
-				let slpp_cut = fa.data_off + if i % 2 == 0 { 100 } else { fa.size / 3 };
+				let slpp_cut = crate::tarx::walk(&arch)
+					.ok()
+					.and_then(|es| es.iter().find(|e| e.name == "frames.arrow").map(|fa| fa.data_off + if i % 2 == 0 { 100 } else { fa.size / 3 }))
+					.unwrap_or(0);
 				Item { built: built.clone(), comp, arch, bad, slp_cut, slpp_cut }
 			})
 		})
